@@ -455,6 +455,10 @@ class SymSeq(Model):
     return self.length() > 0
 
   def py___contains__(self, ip, v):
+    if getattr(self, 'map_of', None) is not None:
+      # `x in [f(e) for e in seq]`: an index witness instead of the sequence theory's contains
+      j = z3.Int('j?')
+      return z3.Exists([j], z3.And(0 <= j, j < self.length(), self.term[j] == self.ty.enc(ip, v)))
     return z3.Contains(self.term, z3.Unit(self.ty.enc(ip, v)))
 
   def _norm_index(self, ip, i):
